@@ -177,6 +177,10 @@ class Result:
         self.probe_after = None
         self.switches = 0           # hand-overs at yield points (preemptions)
         self.locs = None            # per thread: (file, function, line) per yield
+        # per thread: (local yield no, fields) where the probe differs from
+        # the thread's previous yield point (``probe_every`` runs only): the
+        # statement just executed wrote observed shared state
+        self.changes = []
 
     def key(self):
         s = json.dumps([self.start, self.trace], default=repr)
@@ -260,6 +264,14 @@ class Scheduler:
             n = st.local[tid]
             st.local[tid] = n + 1
             st.step += 1
+            if st.probe_every and st.probe is not None:
+                now = st.probe()
+                prev = st.own_view[tid]
+                if prev is not None and now != prev:
+                    st.res.changes[tid].append(
+                        (n, sorted(k for k in now
+                                   if now.get(k) != prev.get(k))[:6]))
+                st.own_view[tid] = now
             live = sorted(st.live)
             nxt = st.policy.at_yield(tid, n, st.step, live)
             if nxt == tid or nxt not in st.live:
@@ -294,10 +306,13 @@ class Scheduler:
                         (st.step, k, seen.get(k), now.get(k)))
 
     # -- run one schedule ------------------------------------------------
-    def run(self, thunks, policy, probe=None, timeout=60.0, record_locs=False):
+    def run(self, thunks, policy, probe=None, timeout=60.0, record_locs=False,
+            probe_every=False):
         assert self.installed
         n = len(thunks)
         st = _State()
+        st.probe_every = probe_every
+        st.own_view = [None] * n
         st.policy, st.probe = policy, probe
         st.res = res = Result()
         st.ident2tid = {}
@@ -315,6 +330,7 @@ class Scheduler:
         res.outcomes = [None] * n
         res.errors = [None] * n
         res.foreign = [[] for _ in range(n)]
+        res.changes = [[] for _ in range(n)]
         base = probe() if probe else None
         res.probe_before = base
         # every worker starts from the state before any worker ran
